@@ -92,6 +92,9 @@ theorem prefixClosed_step {s s' : Sys} (I : SysInv s) (hc : PrefixClosed s.uni) 
     cases hl : s.logs r with
     | none => rw [hl] at hstep; cases hstep
     | some l => rw [hl] at hstep; simp only [Option.some.injEq] at hstep; subst hstep; exact hc
+  | rebuild src cid ents wh =>
+    obtain ⟨l, _, _, rfl⟩ := rebuild_step hstep
+    exact hc
 
 theorem prefixClosed_run : ∀ (ops : List Op) {s s' : Sys}, SysInv s → PrefixClosed s.uni →
     s.run ops = some s' → PrefixClosed s'.uni
